@@ -34,8 +34,8 @@ strengthening noted in the last column - and %d are not caught, each with the
 reason in the table. %d further changes were discarded because a repair made
 in the meantime removed their effect. Some changes are caught by the check of
 a neighbouring property rather than by the one their author named (noted in
-the table). The authors' side remarks about the unchanged tree led to a
-further dozen repairs (section 14).
+the table). The authors' side remarks about the unchanged tree led to
+some forty further repairs (section 14).
 
 | seeded id | property | change | caught as (and what had to be strengthened) |
 |---|---|---|---|
